@@ -794,6 +794,12 @@ def c20(ctx):
             for f in ('cr_flag', 'implicit_write_flag', 'hold_state_flag'):
                 ctx.check('idle-flags', cval(t.post.mem.get(('S', f))) == 0, t.site(),
                           '%s is not cleared when the machine returns to idle from %s' % (f, short(t.frm)))
+    # once a line has shown a CR the flag stays set until the line has been answered
+    for t in ts:
+        for e in t.stores():
+            if e['loc'] == ('S', 'cr_flag') and cval(e['val']) == 0:
+                ctx.check('cr-sticky', t.to.endswith('_IDLE'), t.site(e),
+                          'the CRLF flag is cleared in the middle of a line (%s -> %s): a CR seen earlier in this line is forgotten' % (short(t.frm), short(t.to)))
     # CR handling in the reading states
     for t in ts:
         c = consumed_char(t)
